@@ -131,7 +131,7 @@ EXPORT errno_t _wcsstr_s_chk(wchar_t *restrict dest, rsize_t dmax,
         }
     }
 
-    while (*dest && dmax) {
+    while (dmax && *dest) {
         i = 0;
         len = slen;
         dlen = dmax;
